@@ -20,8 +20,8 @@ PROPS = {
                              "cross-thread-free", "thread-exit", "diag-concurrent", "slab-growth", "diag-during-growth", "gate-reached"],
         "assumptions": _A,
         "runs": {
-            "quick": [{"config": "plain", "shards": 16, "args": {"n": 576, "gates": 32}}, {"config": "tsan", "shards": 16, "args": {"n": 144, "gates": 32, "scale": 40}},
-                      {"config": "asan", "shards": 16, "args": {"n": 192, "gates": 32, "scale": 60}}],
+            "quick": [{"config": "plain", "shards": 16, "args": {"n": 384, "gates": 32}}, {"config": "tsan", "shards": 16, "args": {"n": 96, "gates": 16, "scale": 40}},
+                      {"config": "asan", "shards": 16, "args": {"n": 128, "gates": 16, "scale": 60}}],
             "thorough": [{"config": "plain", "shards": 16, "seeds": 2}, {"config": "tsan", "shards": 16, "args": {"n": 1200, "gates": 64, "scale": 40}},
                          {"config": "asan", "shards": 16, "args": {"n": 1200, "gates": 64, "scale": 60}}],
         },
